@@ -109,6 +109,12 @@ var vmHandPrograms = []string{
 	"counter c by k\n/^(\\w+)$/ {\nc[$1]++\n}\n/^del (\\w+)/ {\ndel c[$1]\n}\n",
 	"counter c by k\n/^(\\w+)$/ {\nc[$1]++\n}\n/^exp (\\w+)/ {\ndel c[$1] after 1h\n}\n",
 	"gauge g by a, b\n/^(\\w+) (\\w+)$/ {\ng[$1][$2] = 1\n}\n/^del (\\w+) (\\w+)/ {\ndel g[$1][$2] after 30s\n}\n",
+	// the value of a postfix increment or decrement, used: assigned, as a key, compared
+	"gauge x\ngauge y\n/^(\\d+)$/ {\ny = x++\n}\n",
+	"counter seq\ncounter seen by k\n/./ {\nseen[seq++]++\n}\n",
+	"gauge x\ncounter c\n/./ {\nx++ > 2 {\nc++\n}\n}\n",
+	"gauge x\ngauge y\n/./ {\ny = x-- + 1\n}\n",
+	"counter c by k\ngauge g\n/^(\\w+)$/ {\ng = c[$1]++ * 2\n}\n",
 	// delayed deletes of every magnitude: sub-second, fractional, zero, very long
 	"counter c by k\n/^(\\w+)$/ {\nc[$1]++\n}\n/^exp (\\w+)/ {\ndel c[$1] after 500ms\n}\n",
 	"counter c by k\n/^(\\w+)$/ {\nc[$1]++\n}\n/^exp (\\w+)/ {\ndel c[$1] after 1ms\n}\n/^del (\\w+)/ {\ndel c[$1] after 1500ms\n}\n",
@@ -283,6 +289,10 @@ func (g *pgen) intExpr(caps []capRef, d int) string {
 		leaves = append(leaves, m)
 	}
 	leaves = append(leaves, fmt.Sprint(g.r.intn(7)-1), "timestamp()")
+	if len(g.ints) > 0 && g.r.chance(1, 6) {
+		// a postfix increment or decrement has a value too
+		leaves = append(leaves, g.r.pick(g.ints)+g.r.pick([]string{"++", "--"}))
+	}
 	for _, c := range caps {
 		if c.ty == "s" {
 			leaves = append(leaves, "len("+c.ref+")", "strtol("+c.ref+", 10)", "int("+c.ref+")")
